@@ -364,6 +364,27 @@ func suiteOPL(t *testing.T, cfg cfgT) {
 			out.stat("corpus")
 		}
 	}
+	// nesting ladders: every way of nesting ("(", "!(", "!", alternating, inside a traversal-free && chain) at every depth
+	// around the parser's limit and far beyond it: accepted up to the limit, one error beyond it, never a crash
+	atom := "this.related.r0.includes(ctx.subject)"
+	for _, d := range []int{1, 2, 3, 4, 5, 6, 7, 8, 9, 10, 11, 12, 13, 14, 30, 200} {
+		var exprs []string
+		exprs = append(exprs, strings.Repeat("(", d)+atom+strings.Repeat(")", d))
+		exprs = append(exprs, strings.Repeat("!(", d)+atom+strings.Repeat(")", d))
+		exprs = append(exprs, strings.Repeat("!", d)+atom)
+		alt := ""
+		for i := 0; i < d; i++ {
+			alt += []string{"(", "!("}[i%2]
+		}
+		exprs = append(exprs, alt+atom+strings.Repeat(")", d))
+		exprs = append(exprs, atom+" && "+strings.Repeat("!(", d)+atom+" || "+atom+strings.Repeat(")", d))
+		exprs = append(exprs, strings.Repeat("(", d)+atom+" && !"+atom+strings.Repeat(")", d)+" || "+atom)
+		for _, e := range exprs {
+			src := "class U implements Namespace {}\nclass N0 implements Namespace { related: { r0: U[] } permits = { p0: (ctx) => " + e + " } }"
+			out.emit("parse "+hx(src), parseObs(src))
+			out.stat("corpus.nesting")
+		}
+	}
 	for i := 0; i < cfg.n; i++ {
 		hr := r.fork()
 		nss := genConfig(hr, hr.chance(2, 3))
